@@ -1005,9 +1005,17 @@ func (e *Exec) sliceExpr(v *ast.SliceExpr, c *Ctx) Term {
 	}
 	r := e.seqSub(base, lo, hi)
 	if !c.spec && v.Max == nil {
-		o := &sliceOrigin{base: base, lo: lo, text: exprText(v)}
+		bx := unparen(v.X)
+		for {
+			if ta, ok := bx.(*ast.TypeAssertExpr); ok {
+				bx = unparen(ta.X)
+				continue
+			}
+			break
+		}
+		o := &sliceOrigin{base: base, lo: lo, text: exprText(v), baseText: exprText(bx)}
 		if bo := e.sliceOrig[base.S]; bo != nil {
-			o = &sliceOrigin{base: bo.base, lo: fmt.Sprintf("(+ %s %s)", bo.lo, lo), text: bo.text}
+			o = &sliceOrigin{base: bo.base, lo: fmt.Sprintf("(+ %s %s)", bo.lo, lo), text: bo.text, baseText: bo.baseText}
 		}
 		e.sliceOrig[r.S] = o
 	}
